@@ -1012,3 +1012,62 @@ mol_is_valid = Contract(
     assumptions=['is_multimapped / contains_valid_fragment / get_max_mapping_qual: arbitrary verdicts (hooks)'],
 )
 UNITS.append(mol_is_valid)
+
+
+# ------------------------------------------------------------------------------ umi_eq with the distance spelled out (UMIs of 3 letters)
+# the units above treat hamming_distance as an uninterpreted function (it has its own units); here the whole of umi_eq runs on
+# UMIs of three symbolic letters over ACGTN against the definition: the number of positions that differ, an N on either side
+# never counting
+def umi3_fragment(name_):
+    def mk(eng, name):
+        u = named(STR, name_ + '.umi')
+        eng.assume(z3.Length(u.z) == 3)
+        for j in range(3):
+            eng.assume(z3.Or([z3.SubString(u.z, j, 1) == z3.StringVal(c) for c in 'ACGTN']))
+        d = named(INT, name_ + '.umi_hamming_distance')
+        eng.assume(z3.And(d.z >= 0, d.z <= 3))
+        return Obj('Fragment', {'umi': u, 'umi_hamming_distance': d}, info=eng.loader.classref(FF, 'Fragment'))
+    return mk
+
+
+DIST3 = 'sum([(1 if (self.umi[j] != other.umi[j] and self.umi[j] != "N" and other.umi[j] != "N") else 0) for j in range(3)])'
+umi_eq3 = Contract(
+    PROP, FF + '::Fragment.umi_eq', name='Fragment.umi_eq[UMIs of three letters, distance spelled out]',
+    params={'self': umi3_fragment('a'), 'other': umi3_fragment('b')},
+    setup=lambda eng: [eng.loader.call_hooks.pop(q, None) for q in (
+        'singlecellmultiomics.utils.sequtils.hamming_distance', 'singlecellmultiomics.fragment.fragment.hamming_distance')],
+    ensures={'close_iff_equal_or_within_the_allowed_number_of_mismatches_N_never_counting':
+             'result == (self.umi == other.umi or (self.umi_hamming_distance > 0 and %s <= self.umi_hamming_distance))' % DIST3},
+    raises={},
+    bounded='UMIs of 3 symbolic letters over ACGTN, allowed distance 0..3',
+    max_paths=100000,
+)
+UNITS.append(umi_eq3)
+
+
+def umi_eq3_replay(inputs, clause):
+    """real Fragment.umi_eq on two bare Fragment objects carrying the model's UMIs and allowed distance; all pairs of 3-letter UMIs
+    over ACGTN are tried as well"""
+    import itertools
+    from pyvc.contract import import_real
+    Frag = import_real(FF, 'Fragment')
+
+    def mk(u, d):
+        f = object.__new__(Frag)
+        f.umi, f.umi_hamming_distance = u, d
+        return f
+    cand = [(str(inputs['self']['attrs']['umi']), str(inputs['other']['attrs']['umi']), int(inputs['self']['attrs']['umi_hamming_distance']))]
+    cand += [(''.join(a), ''.join(b), d) for a in itertools.product('ACGTN', repeat=3) for b in itertools.product('ACGTN', repeat=3)
+             for d in (0, 1, 2)]
+    for a, b, d in cand:
+        if len(a) != 3 or len(b) != 3 or set(a + b) - set('ACGTN'):
+            continue
+        want = a == b or (d > 0 and sum(1 for x, y in zip(a, b) if x != y and x != 'N' and y != 'N') <= d)
+        got = bool(mk(a, d).umi_eq(mk(b, d)))
+        if got != want:
+            return {'status': 'confirmed', 'observed': {'outcome': 'return', 'value': got, 'expected': want, 'umis': [a, b], 'allowed_distance': d},
+                    'failed': [{'clause': clause}]}
+    return {'status': 'not-reproduced', 'observed': {'outcome': 'return', 'value': 'all 3-letter UMI pairs agree'}}
+
+
+umi_eq3.replay = umi_eq3_replay
